@@ -1,14 +1,15 @@
 import Driver.Loop
 import Driver.DatasetProto
 
-/-! Driver for C09: `c09 run <units> <op> | <op> | …` (see `Driver/DatasetProto.lean`). -/
+/-! Driver for C09: `c09 run <units> <time conversions> <op> | <op> | …` (see `Driver/DatasetProto.lean`). -/
 namespace Driver.C09
 open Midgard.Proto Midgard.Dataset Driver.DS
 
 def handle : List String → Option String
-  | "c09" :: "run" :: units :: rest => do
+  | "c09" :: "run" :: units :: conv :: rest => do
     let us ← parseUnits? units
-    pure (" || ".intercalate (runOps { units := us } (splitOps rest)))
+    let cv ← parseConv? conv
+    pure (" || ".intercalate (runOps { units := { us with conv := cv } } (splitOps rest)))
   | _ => none
 
 end Driver.C09
